@@ -39,6 +39,28 @@ inductive Out | ok | rej deriving DecidableEq, Repr
 /-- Python's `1` in quanta of 1/4 -/
 def one : Int := 4
 
+/-! ## metadata values that are not a dict
+
+`Meta` is a Python dict `attribute token ↦ value token`.  A metadata value that is NOT a dict (`0`, `''`, `[]`, `None`,
+`False`, `7`, `"x"`, `[1, 2]`, ... - `set_node_metadata`, `set_edge_metadata`, `add_node(metadata=...)`,
+`add_edge(metadata=...)` store whatever object they are given) is written as the one-entry list `[(nonDict, value token)]`;
+the attribute token `nonDict` is reserved and never used as a dict key.  Such a value is never equal to `{}` (the test of
+`add_node`), and item assignment on it raises `TypeError` (`setAttr`).  Python's `None` handed to `add_node` / `add_edge` /
+`add_edges` / the constructor as a `metadata` ARGUMENT means "not given" (`argMeta`; the wire writes `N` / `{}` there);
+`remove_node(keep_edges=True)` passes the stored metadata of a hyperedge as such an argument. -/
+
+def nonDict : Nat := 9
+/-- value token of Python's `None` -/
+def noneVal : Nat := 11
+def isVal : Meta → Bool
+  | [(a, _)] => a == nonDict
+  | _ => false
+def metaNone : Meta := [(nonDict, noneVal)]
+/-- a stored metadata value handed on as the `metadata=` argument of `add_edge`: `None` becomes `{}` -/
+def argMeta (md : Meta) : Meta := if md == metaNone then [] else md
+/-- `md[field] = value`: `TypeError` unless `md` is a dict -/
+def setAttr (a v : Nat) (md : Meta) : Option Meta := if isVal md then none else some (AL.set md a v)
+
 /-! ## canonicalisation: `tuple(sorted(...))` -/
 
 def insertSorted (a : Nat) : List Nat → List Nat
@@ -296,7 +318,7 @@ def reinsert (s : Store) (n : Node) (k : Key) : Store × Out :=
   let k' := shrinkKey k n
   if k'.1.isEmpty || k'.2.isEmpty then (s, .ok) else
   match weightOfKey s k, metaOfKey s k with
-  | some w, some md => addEdge s (RawEdge.ofKey k') (some w) (some md)
+  | some w, some md => addEdge s (RawEdge.ofKey k') (some w) (some (argMeta md))
   | _, _ => (s, .rej)
 
 def reinsertAll (s : Store) (n : Node) : List Key → Store × Out
@@ -367,11 +389,13 @@ def setEdgeMeta (s : Store) (e : RawEdge) (md : Meta) : Store × Out :=
 
 def setHMeta (s : Store) (md : Meta) : Store := { s with hmeta := md }
 def setAttrH (s : Store) (a v : Nat) : Store := { s with hmeta := AL.set s.hmeta a v }
+/-- `set_attr_to_hypergraph_metadata`: `TypeError` when `set_hypergraph_metadata` stored a value that is not a dict -/
+def setAttrHOp (s : Store) (a v : Nat) : Store × Out := if isVal s.hmeta then (s, .rej) else (setAttrH s a v, .ok)
 
-/-- `set_attr_to_node_metadata` (tests membership in `_node_metadata`) -/
+/-- `set_attr_to_node_metadata` (tests membership in `_node_metadata`; `TypeError` when the stored value is not a dict) -/
 def setAttrNode (s : Store) (n : Node) (a v : Nat) : Store × Out :=
   match AL.get? s.nmeta n with
-  | some md => ({ s with nmeta := AL.set s.nmeta n (AL.set md a v) }, .ok)
+  | some md => if isVal md then (s, .rej) else ({ s with nmeta := AL.set s.nmeta n (AL.set md a v) }, .ok)
   | none => (s, .rej)
 
 /-- `remove_attr_from_node_metadata`: `del` raises KeyError when the attribute is missing -/
@@ -389,7 +413,7 @@ def setAttrEdge (s : Store) (e : RawEdge) (a v : Nat) : Store × Out :=
     | none => (s, .rej)
     | some id =>
       match AL.get? s.emeta id with
-      | some md => ({ s with emeta := AL.set s.emeta id (AL.set md a v) }, .ok)
+      | some md => if isVal md then (s, .rej) else ({ s with emeta := AL.set s.emeta id (AL.set md a v) }, .ok)
       | none => (s, .rej)
 
 /-- `remove_attr_from_edge_metadata` (after fix D10) -/
@@ -467,7 +491,7 @@ def applyOp (s : Store) : Op → Store × Out
   | .setNodeMeta n md => setNodeMeta s n md
   | .setEdgeMeta e md => setEdgeMeta s e md
   | .setHMeta md => (setHMeta s md, .ok)
-  | .setAttrH a v => (setAttrH s a v, .ok)
+  | .setAttrH a v => setAttrHOp s a v
   | .setAttrNode n a v => setAttrNode s n a v
   | .setAttrEdge e a v => setAttrEdge s e a v
   | .delAttrNode n a => delAttrNode s n a
@@ -681,7 +705,7 @@ def reinsert (s : Spec) (n : Node) (k : Key) : Spec × Out :=
   let k' := shrinkKey k n
   if k'.1.isEmpty || k'.2.isEmpty then (s, .ok) else
   match AL.get? s.edges k with
-  | some (w, md) => addEdge s (RawEdge.ofKey k') (some w) (some md)
+  | some (w, md) => addEdge s (RawEdge.ofKey k') (some w) (some (argMeta md))
   | none => (s, .rej)
 
 def reinsertAll (s : Spec) (n : Node) : List Key → Spec × Out
@@ -757,6 +781,9 @@ def updNodeMeta (s : Spec) (n : Node) (f : Meta → Option Meta) : Spec × Out :
 
 def delAttr (a : Nat) (md : Meta) : Option Meta := if AL.has md a then some (AL.erase md a) else none
 
+def setAttrHOp (s : Spec) (a v : Nat) : Spec × Out :=
+  if isVal s.hmeta then (s, .rej) else ({ s with hmeta := AL.set s.hmeta a v }, .ok)
+
 def applyOp (s : Spec) : Op → Spec × Out
   | .addNode n md => (addNode s n md, .ok)
   | .addNodes ns => (addNodes s ns, .ok)
@@ -770,9 +797,9 @@ def applyOp (s : Spec) : Op → Spec × Out
   | .setNodeMeta n md => setNodeMeta s n md
   | .setEdgeMeta e md => updEdgeMeta s e (fun _ => some md)
   | .setHMeta md => ({ s with hmeta := md }, .ok)
-  | .setAttrH a v => ({ s with hmeta := AL.set s.hmeta a v }, .ok)
-  | .setAttrNode n a v => updNodeMeta s n (fun md => some (AL.set md a v))
-  | .setAttrEdge e a v => updEdgeMeta s e (fun md => some (AL.set md a v))
+  | .setAttrH a v => setAttrHOp s a v
+  | .setAttrNode n a v => updNodeMeta s n (setAttr a v)
+  | .setAttrEdge e a v => updEdgeMeta s e (setAttr a v)
   | .delAttrNode n a => updNodeMeta s n (delAttr a)
   | .delAttrEdge e a => updEdgeMeta s e (delAttr a)
   | .clear => ({ s with nodes := [], edges := [] }, .ok)
